@@ -88,7 +88,7 @@ def check_c01(ctx):
     vlib.build_worker(ctx)
     maxchain, pk = tier_params(ctx)
     rep = vlib.Report(ctx)
-    pairs = run_codec(ctx, ['single', 'pair', 'ext', 'chain'], maxchain, pk)
+    pairs = run_codec(ctx, ['single', 'pair', 'combo', 'ext', 'chain'], maxchain, pk)
     collect(ctx, rep, pairs, ['c01'], lambda o, v: 'diff=%s err=%s' % (o.get('diff', ''), o['err'][:80]), lambda o, v: v['nf'])
     return rep.finish(
         'model_checking',
@@ -108,7 +108,7 @@ def check_c07(ctx):
     vlib.build_worker(ctx)
     maxchain, pk = tier_params(ctx)
     rep = vlib.Report(ctx)
-    pairs = run_codec(ctx, ['wild', 'payload', 'odd', 'single', 'ext', 'chain'] + (['pair'] if ctx.tier == 'thorough' else []), maxchain, pk,
+    pairs = run_codec(ctx, ['wild', 'payload', 'odd', 'single', 'combo', 'ext', 'chain'] + (['pair'] if ctx.tier == 'thorough' else []), maxchain, pk,
                       extra=['-mutate', '400' if ctx.tier == 'thorough' else '40'])
     collect(ctx, rep, pairs, ['c07total', 'c07idem', 'c07bytes'], lambda o, v: 'n1=%s n2=%s err=%s' % (o.get('n1', '')[:120], o.get('n2', '')[:120], o['err'][:200]),
             lambda o, v: o['case']['fam'] in ('wild', 'payload', 'odd'))
@@ -133,7 +133,7 @@ def check_c14(ctx):
     vlib.build_worker(ctx)
     maxchain, pk = tier_params(ctx)
     rep = vlib.Report(ctx)
-    pairs = run_codec(ctx, ['single', 'pair', 'ext', 'payload', 'chain', 'odd'], maxchain, pk)
+    pairs = run_codec(ctx, ['single', 'pair', 'combo', 'ext', 'payload', 'chain', 'odd'], maxchain, pk)
     collect(ctx, rep, pairs, ['c14'], lambda o, v: 'gob=%s %s' % (o.get('gob'), o.get('gobdiff', '')), lambda o, v: o.get('gob') != 'na')
     return rep.finish(
         'model_checking',
@@ -148,7 +148,7 @@ def check_c15(ctx):
     vlib.build_worker(ctx)
     maxchain, pk = tier_params(ctx)
     rep = vlib.Report(ctx)
-    pairs = run_codec(ctx, ['single', 'pair', 'ext', 'chain', 'odd'], maxchain, pk)
+    pairs = run_codec(ctx, ['single', 'pair', 'combo', 'ext', 'chain', 'odd'], maxchain, pk)
     collect(ctx, rep, pairs, ['c15'], lambda o, v: 'pointers=%s' % [(b['ptr'], b['err'][:60] or b['typed'][:40], b['json'][:40]) for b in o['badptr'] if b['ptr'] in v['bad15']][:3],
             lambda o, v: o.get('nptr', 0) > 0)
     rep.counts['pointers_evaluated'] = sum(o.get('nptr', 0) for o, v in pairs)
@@ -214,7 +214,7 @@ def check_c06(ctx):
     rep = vlib.Report(ctx)
     ordering_part(ctx, rep, 'c06order')
     # (b) every encoding performed for the vocabulary families: token scan, parse-back, determinism
-    pairs = run_codec(ctx, ['single', 'pair', 'ext', 'chain', 'wild', 'payload', 'odd'], maxchain, pk)
+    pairs = run_codec(ctx, ['single', 'pair', 'combo', 'ext', 'chain', 'wild', 'payload', 'odd'], maxchain, pk)
     collect(ctx, rep, pairs, ['c06'], lambda o, v: 'dups=%s faithful=%s det=%s' % (o.get('dups'), o.get('faithful'), o.get('det')),
             lambda o, v: o['outcome'] == 'ok')
     # (c) values obtained through the builder API
